@@ -77,6 +77,17 @@ CHECKS['C06'] = dict(
     note='Trusted: as C03; zgemm/containers from the reference shim; matrix entry points for d<=4 in the quick tier (d<=6 thorough); '
          'general (non-diagonal) Yd is outside the WeightedRotation clause.',
     design='§3 C06')
+CHECKS['C14'] = dict(
+    text='Every binary entry point (24 forms incl. all rvalue overloads, compound assignments with vectors and expressions, assignment to '
+         'external storage, Evolve(op,t), Rotate(matrix)) is executed symbolically for all 20 ordered dimension pairs from externally '
+         'backed operands over oversized buffers with an access monitor: the path must end in an exception, both operands must be '
+         'bit-identical (object fields and buffer cells) and no load/store may fall outside the operands\' own d^2 doubles. All '
+         'constructors/factories are run with dimension 1,7,8, every unsupported list length <=64, every unsupported matrix shape up to 8x8 and '
+         'a symbolic factory index in 0..d*d+2; z3 decides that only admissible arguments are accepted; out-of-range cache indexing is caught '
+         'by the object table. Candidates are replayed natively under ASan/UBSan.',
+    note='Trusted: clang-14 -O1 IR; heap/object model of irsym (fresh 32-byte aligned blocks, thread-local cache initially empty); the '
+         'window of unsupported arguments is the one stated in the property.',
+    design='§3 C14')
 NA_REASON = 'check not built yet (framework under construction; see DESIGN.md)'
 NA = {}
 
